@@ -55,8 +55,8 @@ CHECKS = {
          "DESIGN.md §5 C09, A.3"),
  "C10": ("mc-graph", "exploration",
          "exhaustive enumeration of sockets x ordered plug lists on the real plug(), graph and encoding compared with the statement",
-         "8 sockets x all ordered lists of 1..3 (quick) / 1..4 (thorough) plugs from a 10-plug universe (exact and semver-compatible versioned names, incompatible tracks, type-incompatible same-named items, plugs with nothing to offer, a plug with its own import, one repeated plug) are plugged on fresh graphs. On success every matchable socket import must be supplied by the designated export of the designated plug (graph queries and E2 reading of both encodings), every other import remains an import, socket exports are re-exported from the socket instance under their names, idle plugs are not instantiated, and both encodings validate; a contested import must fail; NoPlugHappened iff nothing was matchable.",
-         "Offers are computed from the library descriptors with the resource-free structural subtype rule. One plug offering two candidates for one import is outside the statement (no verdict).",
+         "10 sockets (incl. two importing two versions of one interface on the same semver track, in ascending and descending order) x all ordered lists of 1..3 (quick) / 1..4 (thorough) plugs from a 12-plug universe (exact and semver-compatible versioned names, incompatible tracks, type-incompatible same-named items, plugs with nothing to offer, a plug with its own import, a plug exporting two versions on one track, one repeated plug) are plugged on fresh graphs. On success every matchable socket import must be supplied by the designated export of the designated plug (graph queries and E2 reading of both encodings), every other import remains an import, socket exports are re-exported from the socket instance under their names, idle plugs are not instantiated, and both encodings validate; a contested import must fail; NoPlugHappened iff nothing was matchable.",
+         "Offers are computed from the library descriptors with the resource-free structural subtype rule. 'Same name or, failing that, a semver-compatible name' is read from the export's side: an export named exactly like a socket import belongs to that import only. One plug offering two candidates for one import, and one export with two semver-compatible socket imports and no same-named one, are outside the statement (no verdict).",
          "DESIGN.md §5 C10"),
  "C01": ("mc-graph", "model_checking",
          "explicit-state BFS over the real CompositionGraph (E1) on three libraries; every reached state encoded under 4 option vectors and re-validated by the reference validator",
